@@ -460,19 +460,25 @@ struct Event {
 }
 
 fn linearize(initial: Option<Order>, events: &[Event], fin: Option<Order>) -> bool {
-    // DFS over orders consistent with real time (a.end < b.start => a first) and per-call order
-    fn go(state: Option<Order>, dead: bool, events: &[Event], done: &mut Vec<bool>, fin: &Option<Order>, depth: usize) -> bool {
-        if depth == events.len() {
+    // DFS over orders consistent with real time (a.end < b.start => a first) and per-call order,
+    // memoised on (set of events done, order state) so that an unexplainable history fails fast
+    type Memo = HashSet<(u32, Option<(u64, u64)>, bool)>;
+    fn go(state: Option<Order>, dead: bool, events: &[Event], done: u32, fin: &Option<Order>, memo: &mut Memo) -> bool {
+        if done.count_ones() as usize == events.len() {
             return state == *fin;
         }
+        let key = (done, state.as_ref().map(|o| (o.visible_quantity(), o.hidden_quantity())), dead);
+        if !memo.insert(key) {
+            return false;
+        }
         for i in 0..events.len() {
-            if done[i] {
+            if done & (1 << i) != 0 {
                 continue;
             }
             // all events that must precede i are done?
             let mut ready = true;
             for j in 0..events.len() {
-                if j != i && !done[j] {
+                if j != i && done & (1 << j) == 0 {
                     let before = events[j].end < events[i].start
                         || (events[j].call == events[i].call && events[j].seq < events[i].seq);
                     if before {
@@ -512,17 +518,15 @@ fn linearize(initial: Option<Order>, events: &[Event], fin: Option<Order>) -> bo
                 _ => None,
             };
             if let Some((ns, nd)) = next {
-                done[i] = true;
-                if go(ns, nd, events, done, fin, depth + 1) {
+                if go(ns, nd, events, done | (1 << i), fin, memo) {
                     return true;
                 }
-                done[i] = false;
             }
         }
         false
     }
-    let mut done = vec![false; events.len()];
-    go(initial, false, events, &mut done, &fin, 0)
+    let mut memo: Memo = HashSet::new();
+    go(initial, false, events, 0, &fin, &mut memo)
 }
 
 pub struct Judgement {
@@ -532,6 +536,8 @@ pub struct Judgement {
     pub drained: bool,
     pub cancel_overlapping: bool,
     pub txids: usize,
+    /// orders with more events than the linearization search bound (not judged)
+    pub unjudged_orders: u64,
 }
 
 /// Evaluate all quiescent oracles. If `drain` is set a draining match is issued first (C08).
@@ -554,7 +560,7 @@ pub fn judge(p: &Program, ex: &Execution, drain: bool) -> Judgement {
         push(COracle::Range, m.clone());
     }
     if ex.info.budget_exceeded || !ex.info.panics.is_empty() {
-        return Judgement { violations: v, kf_c13_1: 0, drained: false, cancel_overlapping: false, txids: 0 };
+        return Judgement { violations: v, kf_c13_1: 0, drained: false, cancel_overlapping: false, txids: 0, unjudged_orders: 0 };
     }
     let level = &ex.level;
     // ---- C03(a): aggregates == sums over the listing
@@ -673,6 +679,7 @@ pub fn judge(p: &Program, ex: &Execution, drain: bool) -> Judgement {
         }
     }
     // ---- per-order linearization (C03 b, C08, C13 part 2)
+    let mut unjudged = 0u64;
     let final_by_id: HashMap<OrderId, Order> = final_listing.iter().map(|o| (o.id(), *o)).collect();
     for (ui, id) in ex.universe.iter().enumerate() {
         let mut events: Vec<Event> = Vec::new();
@@ -710,8 +717,9 @@ pub fn judge(p: &Program, ex: &Execution, drain: bool) -> Judgement {
             }
         }
         let fin = final_by_id.get(id).copied();
-        if events.len() > 12 {
-            continue; // too many events for the search bound; not judged (counted by the caller)
+        if events.len() > 24 {
+            unjudged += 1; // beyond the search bound; not judged (counted)
+            continue;
         }
         if !linearize(initial, &events, fin) {
             v.push(CViolation {
@@ -797,7 +805,7 @@ pub fn judge(p: &Program, ex: &Execution, drain: bool) -> Judgement {
             }
         }
     }
-    Judgement { violations: v, kf_c13_1: kf, drained, cancel_overlapping, txids: txids.len() }
+    Judgement { violations: v, kf_c13_1: kf, drained, cancel_overlapping, txids: txids.len(), unjudged_orders: unjudged }
 }
 
 impl Event {
